@@ -160,10 +160,66 @@ class Gen:
         if kind == "page": return (0x10000 * r.choice([1, 1, 2]) - r.choice([1, 2, 3, 4, 6, 8, 13, 16, 17])) // bpa
         return r.choice([0x12340, 0xfffff0, 0x1000000 - 6]) // bpa
 
+    def exact_data(self, n):
+        """[items]: a data run of exactly n bytes"""
+        r = self.rng
+        k = r.random()
+        if k < 0.15 and n % 2 == 0:
+            return [("dc16", r.choice(["dw", "dc16"]), [N(r.randrange(65536)) for _ in range(n // 2)])]
+        if k < 0.3:
+            return [("db", r.choice(["ascii", "db"]), [("s", [r.choice(b"abcXYZ 09~!z{}|") for _ in range(n)])])]
+        if k < 0.45 and n > 2:
+            m = r.randrange(1, n)
+            return [("db", "db", [N(r.randrange(256)) for _ in range(m)]), ("db", "db", [N(r.randrange(256)) for _ in range(n - m)])]
+        return [("db", r.choice(["db", "dc8"]), [N(r.choice(DATA_BYTES) if r.random() < 0.3 else r.randrange(256)) for _ in range(n)])]
+
+    def side(self, cpu, kind, n):
+        """one segment body: data = a run of exactly n bytes; code = instructions"""
+        r = self.rng
+        code = [self.ins(cpu) for _ in range(r.choice([1, 1, 2, 3]))]
+        if kind == "data": return self.exact_data(n)
+        if kind == "code": return code
+        if kind == "code+data": return code + self.exact_data(n)
+        return self.exact_data(n) + code                                  # data+code
+
+    def page_program(self, cpu=None):
+        """64 KiB page geometry of the image (Memory allocates pages on demand; the dump / the writers walk low..high):
+        segment 1 ends `back` bytes in front of the end of page P-1, `gap` pages are never touched, segment 2 starts
+        `fwd` bytes into its page.  The check module moves the first .org once the size of segment 1 is known
+        (prog["fit_end"] = byte address behind segment 1, prog["seg1"] = number of items of segment 1)."""
+        r = self.rng
+        cpu = cpu or r.choice(self.cpus)
+        bpa = self.table[cpu]["bpa"]
+        unit = lambda v: v // bpa * bpa
+        page = r.choice([1, 1, 1, 2, 3, 0x10, 0x100])
+        lens = list(range(1, 18)) + [31, 32, 33]
+        sides = ["data"] * 5 + ["code", "code+data", "data+code"]
+        n1, n2 = unit(r.choice(lens) + bpa - 1), unit(r.choice(lens) + bpa - 1)
+        back = unit(r.choice([0] * 7 + [1, 2, 4, 15]))
+        fwd = unit(r.choice([0] * 7 + [1, 2, 4, 16]))
+        gap = r.choice([0, 1, 1, 1, 2, 2, 3])
+        s1, s2 = r.choice(sides), r.choice(sides)
+        seg1 = [("org", N((page * 0x10000 - back - n1 - 16) // bpa))] + self.side(cpu, s1, n1)
+        items = list(seg1)
+        at = (page + gap) * 0x10000 + fwd
+        items.append(("org", N(at // bpa)))
+        if r.random() < 0.3:
+            items.append(self.lab())
+        items += self.side(cpu, s2, n2)
+        if r.random() < 0.3:
+            # a third segment: again on the first byte of a later page, or in the page of segment 2
+            g3 = r.choice([0, 1, 2])
+            items.append(("org", N(((page + gap + 1 + g3) * 0x10000 + unit(r.choice([0, 0, 0, 3, 0x20]))) // bpa)))
+            items += self.side(cpu, r.choice(sides), unit(r.choice(lens) + bpa - 1))
+        return {"cpu": cpu, "items": items, "shape": "pages", "seg1": len(seg1), "fit_end": page * 0x10000 - back,
+                "geometry": "%s|%s back=%d gap=%d fwd=%d" % (s1, s2, back, gap, fwd)}
+
     def program(self, cpu=None, shape=None):
         r = self.rng
         cpu = cpu or r.choice(self.cpus)
         shape = shape or r.choice(SHAPES)
+        if shape == "pages":
+            return self.page_program(cpu)
         items = [("org", N(self.origin(cpu)))]
         if shape == "plain":
             items += self.body(cpu, r.randrange(2, 12))
@@ -230,7 +286,35 @@ class Gen:
 
 
 SHAPES = ["plain", "plain", "odd-data", "repeat", "repeat", "gaps", "segments", "macro", "include", "data-only", "data-units",
-          "code-only", "empty", "labels", "overwrite"]
+          "code-only", "empty", "labels", "overwrite", "pages"]
+
+
+def pages_fixed():
+    """page geometry, seed independent: a data run of every length 1..17 that ends on the last byte of a page, 1 or 2
+    untouched pages, a data run on the first byte of a later page (bytes_per_address 1 and 2, both byte orders), and the
+    neighbouring shapes (no gap, not on the boundary, code on either side)"""
+    out = []
+    db = lambda n, first=1: ("db", "db", [N((first + i) & 0xff) for i in range(n)])
+    out.append({"cpu": "msp430", "shape": "pages", "geometry": "seeded", "items": [("org", N(0xfff5)), db(11), ("org", N(0x30000)), db(3, 0xa1)]})
+    for cpu, bpa in (("msp430", 1), ("avr8", 2), ("68000", 1)):
+        for n in range(bpa, 18 + bpa, bpa):
+            for gap in ((1, 2) if cpu != "68000" else (1,)):
+                if cpu == "68000" and n not in (1, 11, 15, 16, 17):
+                    continue
+                out.append({"cpu": cpu, "shape": "pages", "geometry": "data|data back=0 gap=%d fwd=0" % gap,
+                            "items": [("org", N((0x10000 - n) // bpa)), db(n), ("org", N((1 + gap) * 0x10000 // bpa)), ("lab", "second"), db(3, 0xa1)]})
+    for cpu, code in (("msp430", "mov.w #0x1234, r5"), ("6502", "lda #1"), ("riscv", "addi a0, a0, 1")):
+        for n in (5, 11):
+            base = [("org", N(0x20000 - n)), db(n)]
+            out.append({"cpu": cpu, "shape": "pages", "geometry": "data|data back=0 gap=0 fwd=0", "items": base + [("org", N(0x20000)), db(3, 0xa1)]})
+            out.append({"cpu": cpu, "shape": "pages", "geometry": "data|data back=0 gap=1 fwd=4", "items": base + [("org", N(0x30004)), db(3, 0xa1)]})
+            out.append({"cpu": cpu, "shape": "pages", "geometry": "data|code back=0 gap=1 fwd=0", "items": base + [("org", N(0x30000)), ("ins", code), db(2, 0xb1)]})
+            out.append({"cpu": cpu, "shape": "pages", "geometry": "data|data back=4 gap=2 fwd=0",
+                        "items": [("org", N(0x20000 - n - 4)), db(n), ("org", N(0x40000)), db(3, 0xa1)]})
+            out.append({"cpu": cpu, "shape": "pages", "geometry": "data|data|data back=0 gap=1 fwd=0",
+                        "items": base + [("org", N(0x30000)), db(0x10000 - 7, 0x11), ("org", N(0x50000)), db(2, 0xc1)] if n == 5 else
+                        base + [("org", N(0x30000)), db(7, 0x11), ("org", N(0x3fffd)), db(3, 0x21), ("org", N(0x50000)), db(2, 0xc1)]})
+    return out
 
 
 def has_gap(items):
